@@ -183,6 +183,42 @@ var (
 	}
 )
 
+// pCustom is a gogoproto-style custom message (Size / MarshalTo / Unmarshal) whose only field is a pointer:
+// a pointer-shaped type, stored directly in the interface handed to proto.Marshal when passed by value.
+type pCustom struct{ p *pCustomData }
+
+type pCustomData struct{ b []byte }
+
+func (c pCustom) Size() int { userYield(); return len(c.p.b) }
+
+func (c pCustom) MarshalTo(b []byte) (int, error) {
+	userYield()
+	if len(b) < len(c.p.b) {
+		return 0, fmt.Errorf("short buffer")
+	}
+	return copy(b, c.p.b), nil
+}
+
+func (c pCustom) Unmarshal(b []byte) error {
+	userYield()
+	c.p.b = append([]byte{}, b...)
+	return nil
+}
+
+// pCustomHolder has the custom message as its only field (itself pointer-shaped) and in a slice.
+type pCustomHolder struct {
+	C pCustom `protobuf:"bytes,1,opt,name=c"`
+}
+
+type pCustomList struct {
+	ID int32     `protobuf:"varint,1,opt,name=id"`
+	L  []pCustom `protobuf:"bytes,2,rep,name=l"`
+}
+
+func valCustom(s string) func() any {
+	return func() any { return pCustom{&pCustomData{[]byte(s)}} }
+}
+
 // a call returns a function rendering its (live) result
 type call struct {
 	name string
@@ -543,6 +579,17 @@ func drivers() []driver {
 			}
 		}, 2, 3, func() []call {
 			return []call{jsonMarshal("nested maps", valNestedMaps), jsonMarshal("map[string]any holding a channel", func() any { return map[string]any{"a": make(chan int)} })}
+		}},
+		{"user-callbacks-proto-custom", func() [][]call {
+			return [][]call{
+				{protoMarshal("pCustom/aaaa by value", valCustom("aaaa")), protoSize("pCustomHolder", func() any { return pCustomHolder{pCustom{&pCustomData{[]byte("hh")}}} })},
+				{protoMarshal("pCustom/bbbbbbbb by value", valCustom("bbbbbbbb")), protoMarshal("pCustomList", func() any {
+					return &pCustomList{ID: 1, L: []pCustom{{&pCustomData{[]byte("x")}}, {&pCustomData{[]byte("yz")}}}}
+				})},
+				{protoSize("pCustom/cc by value", valCustom("cc")), protoMarshal("pCustomHolder", func() any { return pCustomHolder{pCustom{&pCustomData{[]byte("kkk")}}} })},
+			}
+		}, 2, 3, func() []call {
+			return []call{protoMarshal("pCustom/w by value", valCustom("w")), protoMarshal("pCustomHolder", func() any { return pCustomHolder{pCustom{&pCustomData{[]byte("v")}}} })}
 		}},
 		{"mixed", func() [][]call {
 			return [][]call{
